@@ -66,6 +66,13 @@ type ctlCase struct {
 	Key     [4]byte // mask of the incoming frame (server side)
 	EOFWD   bool    // the source returns its last chunk together with io.EOF
 	SameKey bool    // every frame of a multi-frame stream is masked with Key (a peer may reuse its key)
+	// Rsv: RSV bits of the incoming control frame; the receiving side then runs with
+	// ws.StateExtended (its header check lets them through). Only for entries that see a header.
+	Rsv byte
+	// NoFin: the header handed to ControlHandler.Handle has Fin unset (Handle is documented as
+	// not checking headers itself). Only eHandleRaw / eHandlePlain; the handler may refuse
+	// (error, nothing written) or answer properly.
+	NoFin bool
 	// Fault: the source ends after K (< len(Payload)) payload bytes of the control
 	// frame, with tx.ErrInjected (faultError) or with a plain EOF (faultCut).
 	Fault int
@@ -126,6 +133,8 @@ type ctlDesc struct {
 	Key     string `json:"mask,omitempty"`
 	EOFWD   bool   `json:"eof_with_data,omitempty"`
 	SameKey bool   `json:"same_key_for_all_frames,omitempty"`
+	Rsv     int    `json:"rsv,omitempty"`
+	NoFin   bool   `json:"header_fin_unset,omitempty"`
 	Fault   string `json:"fault,omitempty"`
 	K       int    `json:"k,omitempty"`
 }
@@ -134,7 +143,7 @@ var opNames = map[byte]string{ref.OpPing: "ping", ref.OpPong: "pong", ref.OpClos
 
 func (c ctlCase) desc() ctlDesc {
 	d := ctlDesc{Op: opNames[c.Op], Payload: fmt.Sprintf("%x", c.Payload), Len: len(c.Payload), Side: "client", Entry: entryNames[c.Entry], Chunks: c.Chunks,
-		EOFWD: c.EOFWD, SameKey: c.SameKey && c.Server, Fault: faultNames[c.Fault], K: c.K}
+		EOFWD: c.EOFWD, SameKey: c.SameKey && c.Server, Rsv: int(c.Rsv), NoFin: c.NoFin, Fault: faultNames[c.Fault], K: c.K}
 	if c.Server {
 		d.Side = "server"
 		d.Key = fmt.Sprintf("%x", c.Key)
@@ -143,15 +152,28 @@ func (c ctlCase) desc() ctlDesc {
 }
 
 func (c ctlCase) state() ws.State {
+	s := ws.StateClientSide
 	if c.Server {
-		return ws.StateServerSide
+		s = ws.StateServerSide
 	}
-	return ws.StateClientSide
+	if c.Rsv != 0 {
+		s = s.Set(ws.StateExtended)
+	}
+	return s
+}
+
+// rsvApplies: entry points through which a header with RSV bits can legally arrive.
+func rsvApplies(e int) bool {
+	switch e {
+	case eHandleRaw, eHandlePlain, eFrameTop, eFrameInter, eReadMessage, eReadDataTop, eReadDataInter, eDiscardFresh, eDiscardPartial:
+		return true
+	}
+	return false
 }
 
 // incoming is the control frame as the peer sends it.
 func (c ctlCase) incoming() ref.Frame {
-	return ref.Frame{H: ref.Header{Fin: true, Op: c.Op, Masked: c.Server, Mask: c.Key}, Payload: c.Payload}
+	return ref.Frame{H: ref.Header{Fin: true, Rsv: c.Rsv, Op: c.Op, Masked: c.Server, Mask: c.Key}, Payload: c.Payload}
 }
 
 func (c ctlCase) dataFrame(op byte, fin bool, p string) ref.Frame {
@@ -173,7 +195,7 @@ func (c ctlCase) run() (written []byte, err error, trouble string) {
 	in := c.incoming()
 	hdrLen := len(in.Encode()) - len(c.Payload)
 	// The header as the header check accepted it.
-	h := ws.Header{Fin: true, OpCode: ws.OpCode(c.Op), Length: int64(len(c.Payload)), Masked: c.Server, Mask: c.Key}
+	h := ws.Header{Fin: !c.NoFin, Rsv: c.Rsv, OpCode: ws.OpCode(c.Op), Length: int64(len(c.Payload)), Masked: c.Server, Mask: c.Key}
 	switch c.Entry {
 	case eHandleRaw:
 		wirePayload := c.Payload
@@ -487,7 +509,7 @@ func note(c ctlCase) {
 	if !nonTrivial(c) {
 		return
 	}
-	hx.NonTrivial(hx.Hash("ctl", c.Op, len(c.Payload), c.Server, c.Entry, codeClass(c), c.Fault, c.K), func() interface{} { return c.desc() })
+	hx.NonTrivial(hx.Hash("ctl", c.Op, len(c.Payload), c.Server, c.Entry, codeClass(c), c.Fault, c.K, c.Rsv, c.NoFin), func() interface{} { return c.desc() })
 }
 
 // one runs and judges a case; it returns the outcome class and the violation or "".
@@ -502,6 +524,9 @@ func one(c ctlCase) (string, string) {
 		return "", trouble
 	}
 	note(c)
+	if c.NoFin && len(written) == 0 && err != nil {
+		return "open/unchecked-header-fin-unset/refused", ""
+	}
 	return judge(c, written, err)
 }
 
@@ -802,6 +827,143 @@ func TestNotControlFrame(t *testing.T) {
 	tally{"enum/not-control/ErrNotControlFrame-nothing-written": n}.flush("")
 }
 
+// Header variety: RSV bits 1..7 on the incoming control frame (receiving side
+// in ws.StateExtended, so its header check accepts them) and, for the direct
+// Handle entries, a header with Fin unset. The reply is judged as always: a
+// final frame with RSV 0 that the peer's plain RFC 6455 header check accepts.
+func TestHeaderVariety(t *testing.T) {
+	rand.Seed(15)
+	tl := tally{}
+	n := 0
+	payloads := map[byte][][]byte{
+		ref.OpPing:  {nil, {0x31}, payloadOf(125, 3)},
+		ref.OpPong:  {nil, payloadOf(7, 5)},
+		ref.OpClose: {nil, {0x03, 0xe8}, append([]byte{0x03, 0xe9}, validReason...), {0x03, 0xed}, {0x07}},
+	}
+	for _, op := range []byte{ref.OpPing, ref.OpPong, ref.OpClose} {
+		for _, p := range payloads[op] {
+			for rsv := 0; rsv < 8; rsv++ {
+				for _, server := range []bool{true, false} {
+					for e := 0; e < numEntries; e++ {
+						if !rsvApplies(e) {
+							continue
+						}
+						for _, nofin := range []bool{false, true} {
+							if nofin && e != eHandleRaw && e != eHandlePlain {
+								continue
+							}
+							if rsv == 0 && !nofin {
+								continue // the plain case is enumerated elsewhere
+							}
+							c := ctlCase{Op: op, Payload: p, Server: server, Entry: e, Chunks: chunkPlans[(rsv+e)%2], EOFWD: rsv&1 == 1,
+								Key: [4]byte{byte(rsv) + 9, 0x4d, byte(e) + 0x90, 0xe2}, Rsv: byte(rsv), NoFin: nofin}
+							n++
+							class, bad := one(c)
+							if bad != "" {
+								hx.Failf(t, c.desc(), "%s", bad)
+								return
+							}
+							tl[fmt.Sprintf("%s/rsv-set=%v/fin-unset=%v", class, rsv != 0, nofin)]++
+						}
+					}
+				}
+			}
+		}
+	}
+	hx.EvalN(n)
+	hx.Part("header variety: RSV 0..7 x {Fin unset for direct Handle} x ping/pong/close payloads (empty and non-empty) x side x the 9 entry points that see a header", int64(n), true)
+	tl.flush("enum/header/")
+}
+
+// A reply buffer must belong to one handler at a time: after an invalid long
+// close was answered, ping A is handled with a source that, midway, has ping B
+// handled by another ControlHandler (another connection); each pong carries
+// its own ping's payload.
+type nestingSrc struct {
+	data  []byte
+	pos   int
+	inner func()
+	done  bool
+}
+
+func (s *nestingSrc) Read(p []byte) (int, error) {
+	if s.pos == len(s.data) {
+		return 0, io.EOF
+	}
+	half := len(s.data) / 2
+	if s.pos >= half && !s.done {
+		s.done = true
+		s.inner()
+	}
+	end := len(s.data)
+	if s.pos < half {
+		end = half
+	}
+	n := copy(p, s.data[s.pos:end])
+	s.pos += n
+	return n, nil
+}
+
+func TestNestedHandlersKeepTheirBuffers(t *testing.T) {
+	rand.Seed(16)
+	n := 0
+	for _, l := range []int{63, 64, 100, 121, 125} {
+		for _, server := range []bool{true, false} {
+			for _, prelude := range []string{"none", "invalid-close", "valid-close", "ping"} {
+				state := ws.StateClientSide
+				if server {
+					state = ws.StateServerSide
+				}
+				hdr := func(op byte, p []byte) ws.Header {
+					return ws.Header{Fin: true, OpCode: ws.OpCode(op), Length: int64(len(p)), Masked: server, Mask: [4]byte{1, 2, 3, 4}}
+				}
+				desc := map[string]interface{}{"len": l, "server": server, "handled_before": prelude}
+				var pre []byte
+				switch prelude {
+				case "invalid-close":
+					pre = append([]byte{0x03, 0xed}, bytes.Repeat([]byte("x"), l-2)...) // code 1005
+				case "valid-close":
+					pre = append([]byte{0x03, 0xe8}, bytes.Repeat([]byte("x"), l-2)...)
+				case "ping":
+					pre = payloadOf(l, 0x11)
+				}
+				if pre != nil {
+					op := byte(ref.OpClose)
+					if prelude == "ping" {
+						op = ref.OpPing
+					}
+					rec := tx.NewRec()
+					err := wsutil.ControlHandler{Src: bytes.NewReader(pre), Dst: rec, State: state, DisableSrcCiphering: true}.Handle(hdr(op, pre))
+					if _, bad := judge(ctlCase{Op: op, Payload: pre, Server: server}, rec.Bytes(), err); bad != "" {
+						hx.Failf(t, desc, "frame handled first: %s", bad)
+						return
+					}
+				}
+				a, b := payloadOf(l, 0xa0), payloadOf(l, 0x0b)
+				recA, recB := tx.NewRec(), tx.NewRec()
+				var errB error
+				src := &nestingSrc{data: a, inner: func() {
+					errB = wsutil.ControlHandler{Src: bytes.NewReader(b), Dst: recB, State: state, DisableSrcCiphering: true}.Handle(hdr(ref.OpPing, b))
+				}}
+				errA := wsutil.ControlHandler{Src: src, Dst: recA, State: state, DisableSrcCiphering: true}.Handle(hdr(ref.OpPing, a))
+				n++
+				if _, bad := judge(ctlCase{Op: ref.OpPing, Payload: a, Server: server}, recA.Bytes(), errA); bad != "" {
+					hx.Failf(t, desc, "outer ping: %s", bad)
+					return
+				}
+				if _, bad := judge(ctlCase{Op: ref.OpPing, Payload: b, Server: server}, recB.Bytes(), errB); bad != "" {
+					hx.Failf(t, desc, "ping handled while the outer one was being read: %s", bad)
+					return
+				}
+				hx.NonTrivial(hx.Hash("nested", l, server, prelude), func() interface{} { return desc })
+			}
+		}
+	}
+	hx.EvalN(n)
+	hx.Part("nested handlers: ping B handled from inside ping A's source x 5 lengths x side x what was handled before", int64(n), true)
+	tally{"enum/nested-handlers/both-pongs-own-payload": n}.flush("")
+}
+
 // ---------------------------------------------------------------------------
 // random cases
 
@@ -862,6 +1024,12 @@ func TestRepliesRandom(t *testing.T) {
 			c.Payload = gen.CtlFrame(t, "ctl", false).Payload
 		}
 		c.EOFWD = rapid.Bool().Draw(t, "eofwd")
+		if rsvApplies(c.Entry) && rapid.IntRange(0, 3).Draw(t, "rsv?") == 0 {
+			c.Rsv = byte(rapid.IntRange(1, 7).Draw(t, "rsv"))
+		}
+		if (c.Entry == eHandleRaw || c.Entry == eHandlePlain) && rapid.IntRange(0, 3).Draw(t, "nofin?") == 0 {
+			c.NoFin = true
+		}
 		if c.Server && rapid.IntRange(0, 3).Draw(t, "samekey?") == 0 {
 			b := rapid.Byte().Draw(t, "samekey")
 			c.SameKey, c.Key = true, [4]byte{b, b + 0x3b, b + 0x77, b + 0xc1}
